@@ -356,6 +356,7 @@ func checkC14(c *Ctx) {
 	c.BoundsText = append(c.BoundsText, fmt.Sprintf("token level: every sequence of 0..%d front-end tokens that is NOT a sentence of spec/gocc2.ebnf makes the real front-end Parser.Parse (checked-in tables, Error()/recovery executed as shipped) return a non-nil error", maxN),
 		"undefined regular definitions: (a) items.GetItemSets on a seven-definition lexical part built with the real ast constructors, WHICH of its 8 references is renamed to an undefined name symbolic: the construction never returns normally; (b) pipeline: the real main() on 13 grammar files (1 well-formed, 12 ill-formed: undefined regular definition x4, undefined production, duplicate definition x3, empty alternative, missing semicolon, stray colon, foreign character) with all seven boolean flags symbolic: main returns normally (exit status 0) only for the well-formed file, every ill-formed one ends in os.Exit(non-zero) or an explicit panic (exit status 2) at the expected site, for every flag combination",
 		"outside the claim: grammar files other than the 13 of the pipeline harness at pipeline level (the token-level and kernel jobs quantify over the file instead); the flag parser itself (config.New is replaced by arbitrary booleans behind the config.Config interface; -o/-p/-h not modelled); the four code generators (stubbed: not reached on ill-formed input, which the jobs show); malformed lexemes that the scanner maps to a valid token (Scanner.ErrorCount is not consulted by main)")
+	c.Assumptions = append(c.Assumptions, "pipeline and writer jobs use the concrete text model: fmt.Sprintf/Fprintf, strings.Builder, strings.Join and strconv.Itoa compute the real text when all operands are concrete (String/Error methods executed by the engine); config.New is replaced by arbitrary booleans behind the config.Config interface; text/template, go/format, gob/gzip and file output are stubs", "defer/recover: a panic below a function with pending deferred calls is unwound only on an execution that has not branched since the call; anything else is reported as unsupported (inconclusive)")
 	c.RunJobs(filterJobs(jobs), 4)
 }
 
